@@ -521,14 +521,18 @@ def c02_callargs(p: int, k: int, o0: int, o1: int, o2: int, o3: int, va: int, vb
 
 
 # =============================================================================== (3) unpack
-def c02_unpack(n: int, m: int, kind: int, x0: int, x1: int, x2: int, x3: int, x4: int) -> bool:
+def c02_unpack(n: int, m: int, kind: int, x0: int, x1: int, x2: int, x3: int, x4: int, nz: int = 0) -> bool:
     """
-    pre: 0 <= n <= 4 and 0 <= m <= 5 and 0 <= kind <= 3
+    nz: 0 = all items are ints; j + 1 = item j is None instead (None is a value like any other: a surplus None counts too)
+
+    pre: 0 <= n <= 4 and 0 <= m <= 5 and 0 <= kind <= 3 and 0 <= nz <= 5
     post: _
     """
     begin()
     M = _pick(m, 6)
+    nzd = _pick(nz, 6)
     items = [x0, x1, x2, x3, x4, x0][:M]
+    items = [None if j + 1 == nzd else v for j, v in enumerate(items)]
     kd = _pick(kind, 4)
     if KIND != "" and kd != int(KIND):
         return True  # this iterable kind belongs to another condition
